@@ -145,6 +145,167 @@ def claim_alist(cx, res, kf):
         res.vacuity.append(("lookup by %s can hit" % which, found >= 1))
 
 
+def claim_append(cx, res, kf):
+    """Value::append (and Value::list = append(xs, ())): the construction protocol, one loop step from an arbitrary state."""
+    from . import confirm as CF
+    from . import replay as RP
+    fn = None
+    for name, f in cx.fns.items():
+        if "lexpr/src/value/mod.rs" in name and name.endswith("::append") and len(f.args) == 2:
+            fn = f
+    if fn is None:
+        res.error = "Value::append not found"
+        return
+    eng = C.make_engine(cx, [], loop_mode="cut", timeout_s=60, max_paths=2000)
+    info = {}
+
+    def unref(st, v):
+        while isinstance(v, Ref):
+            v = eng.load(st, v.addr)
+        return v
+
+    def h_new(engine, st, fr, callee, argv, m):
+        return Opaque("Cons", "head", {})
+
+    def h_iter(engine, st, fr, callee, argv, m):
+        return Opaque("Iter", "elements", {})
+
+    def h_next(engine, st, fr, callee, argv, m):
+        n = st.notes.get("nnext", 0) + 1
+        st.notes["nnext"] = n
+        some = z3.Bool("next_%d_some" % n)
+        st.events.append(("next", some))
+        return S.mk_option(some, Opaque("Item", "item%d" % n, {}))
+
+    def h_fresh(engine, st, fr, callee, argv, m):
+        return Opaque("Value", "fresh (#nil . ()) cell", {})
+
+    def h_set(engine, st, fr, callee, argv, m):
+        st.events.append((m.group(1), unref(st, argv[0]), unref(st, argv[1])))
+        return UnitV()
+
+    def h_cdr_mut(engine, st, fr, callee, argv, m):
+        return Ref(("V", Opaque("Value", "cdr", {"of": unref(st, argv[0])})))
+
+    def h_as_cons_mut(engine, st, fr, callee, argv, m):
+        v = unref(st, argv[0])
+        return S.mk_option(True, Ref(("V", Opaque("Cons", "cell in", {"of": v}))))
+
+    def h_into(engine, st, fr, callee, argv, m):
+        return Opaque("Value", "into", {"of": unref(st, argv[0])})
+    eng.stubs = [
+        (re.compile(r"^Cons::new::<"), h_new), (re.compile(r"^<I as IntoIterator>::into_iter$"), h_iter),
+        (re.compile(r"^<<I as IntoIterator>::IntoIter as Iterator>::next$"), h_next),
+        (re.compile(r"^<Value as From<\(Value, Value\)>>::from$"), h_fresh),
+        (re.compile(r"^Cons::(set_cdr|set_car)::<"), h_set), (re.compile(r"^Cons::cdr_mut$"), h_cdr_mut),
+        (re.compile(r"^Value::as_cons_mut$"), h_as_cons_mut),
+        (re.compile(r"^<(?:<I as IntoIterator>::Item|T) as Into<Value>>::into$"), h_into),
+    ] + S.COMBINATOR_STUBS + S.CORE_STUBS
+    hv_l, pair_l = fn.local_by_debug("have_value"), fn.local_by_debug("pair")
+
+    def init(e, st, fr):
+        fr.locals[fn.args[0]] = Opaque("I", "elements arg", {})
+        fr.locals[fn.args[1]] = Opaque("T", "tail arg", {})
+        st.notes["in"] = ()
+        return []
+
+    def havoc(e, st, fr, bb):
+        cur = Opaque("Cons", "current pair", {})
+        info["arrive_pair"] = unref(st, fr.locals.get(pair_l))
+        fr.locals[pair_l] = Ref(("V", cur))
+        st.notes["in"] = st.notes["in"] + ((bb, {"hv": fr.locals[hv_l].e, "pair": cur, "nev": len(st.events)}),)
+        return []
+    eng.havoc_hook = havoc
+    terms = eng.explore(fn.name, init)
+    res.absorb(eng)
+
+    def onm(m=None):
+        cases = [("plain", "L0 I:3"), ("plain", "L0 L2 I:4 I:5 U"), ("plain", "L0 U"), ("plain", "L1 I:1 I:2"), ("plain", "L2 I:1 I:2 L1 I:3 U"), ("plain", "L0 S:61")]
+        want = [b"3", b"(4 5)", b"()", b"(1 . 2)", b"(1 2 3)", b'"a"']
+        got = RP.print_batch(cases)
+        res.replays += len(cases)
+        for c, w, g in zip(cases, want, got):
+            if g != w:
+                return {"replayed": True, "observed": {"append_descriptor": c[1], "printed": g.decode("latin-1") if isinstance(g, bytes) else g, "expected": w.decode()},
+                        "witness": {"kind": "print", "value": c[1], "print_opts": "plain", "expect_text_hex": w.hex(), "fast": True}}
+        return {"replayed": False}
+    seen = {"step_first": 0, "step_more": 0, "end_some": 0, "end_none": 0}
+    base_done = set()
+    for t in terms:
+        st = t.state
+        pc = list(st.pc)
+        if t.kind == "PANIC":
+            res.must_be_unsat(pc, "Value::append: reachable panic", onm)
+            continue
+        if not st.notes["in"]:
+            continue
+        arr = st.notes.get("arrivals", ())
+        if arr and id(arr[0][1]) not in base_done:
+            base_done.add(id(arr[0][1]))
+            a = arr[0][1]
+            hv0 = a["locals"].get(hv_l)
+            ok_pair = isinstance(info.get("arrive_pair"), Opaque) and info["arrive_pair"].label == "head"
+            if hv0 is None or not ok_pair:
+                res.violations.append({"what": "Value::append: the loop does not start at the head cell", "replayed": None})
+            else:
+                res.must_be_unsat(list(st.pc[:a["pc_len"]]) + [hv0.e], "Value::append starts as if an element had already been stored", onm)
+        hb, rec = st.notes["in"][-1]
+        hv, P = rec["hv"], rec["pair"]
+        evs = st.events[rec["nev"]:]
+        nxt = [e for e in evs if e[0] == "next"]
+        sets = [e for e in evs if e[0] in ("set_cdr", "set_car")]
+        if not nxt:
+            continue
+        some = nxt[0][1]
+        if t.kind == "LOOP_BACK":
+            res.must_be_unsat(pc + [z3.Not(some)], "Value::append continues after the elements are exhausted", onm)
+            fr = st.frames[-1]
+            res.must_be_unsat(pc + [z3.Not(fr.locals[hv_l].e)], "Value::append forgets that an element has been stored", onm)
+            r, _ = res.solve(pc + [hv])
+            more = (r == z3.sat) and len(sets) == 2
+            if more:
+                seen["step_more"] += 1
+                c, a2 = sets
+                okc = c[0] == "set_cdr" and c[1] is P and isinstance(c[2], Opaque) and c[2].label.startswith("fresh")
+                newp = a2[1]
+                okp = isinstance(newp, Opaque) and newp.label == "cell in" and isinstance(newp.attrs.get("of"), Opaque) and newp.attrs["of"].attrs.get("of") is P
+                oka = a2[0] == "set_car" and okp and isinstance(a2[2], Opaque) and a2[2].label == "into" and a2[2].attrs["of"].label.startswith("item")
+                if not (okc and oka):
+                    res.must_be_unsat(pc, "Value::append: a further element is not stored in a fresh cell linked behind the current one", onm)
+            elif len(sets) == 1:
+                seen["step_first"] += 1
+                a2 = sets[0]
+                oka = a2[0] == "set_car" and a2[1] is P and isinstance(a2[2], Opaque) and a2[2].label == "into"
+                res.must_be_unsat(pc + [hv], "Value::append overwrites the current element instead of linking a new cell", onm)
+                if not oka:
+                    res.must_be_unsat(pc, "Value::append: the first element is not stored in the head cell", onm)
+            else:
+                res.must_be_unsat(pc, "Value::append: unexpected construction steps %r" % [e[0] for e in sets], onm)
+            continue
+        if t.kind != "RETURN":
+            continue
+        res.must_be_unsat(pc + [some], "Value::append returns while elements remain", onm)
+        v = t.value
+        if len(sets) == 1 and sets[0][0] == "set_cdr":
+            seen["end_some"] += 1
+            tail_ok = sets[0][1] is P and isinstance(sets[0][2], Opaque) and sets[0][2].label == "into" and sets[0][2].attrs["of"].label == "tail arg"
+            ret_ok = isinstance(v, EnumV) and v.name == "Value" and K.concrete(v.discr) == cx.enums["Value"].index("Cons") and \
+                isinstance(v.variants[K.concrete(v.discr)][0], Opaque) and v.variants[K.concrete(v.discr)][0].label == "head"
+            res.must_be_unsat(pc + [z3.Not(hv)], "Value::append links a tail into an empty chain", onm)
+            if not (tail_ok and ret_ok):
+                res.must_be_unsat(pc, "Value::append: the given tail is not stored as the cdr of the last cell / the chain is not what is returned", onm)
+        elif not sets:
+            seen["end_none"] += 1
+            res.must_be_unsat(pc + [hv], "Value::append drops the collected elements", onm)
+            ret_ok = isinstance(v, Opaque) and v.label == "into" and v.attrs["of"].label == "tail arg"
+            if not ret_ok:
+                res.must_be_unsat(pc, "Value::append of no elements does not return the given tail (an empty list of elements with a non-empty tail is lost)", onm)
+        else:
+            res.must_be_unsat(pc, "Value::append: unexpected final steps %r" % [e[0] for e in sets], onm)
+    for k, n in seen.items():
+        res.vacuity.append(("Value::append reaches %s" % k, n > 0))
+
+
 CLAIMS = [
     Claim("c15_alist_lookup", "C15", "quick", claim_alist,
           "association-list lookup, for an arbitrary target and an arbitrary entry of it: lookup by value hits only a pair "
@@ -152,4 +313,9 @@ CLAIMS = [
           "pair whose key is a string, symbol or keyword with that name; anything that is not a list gives None",
           "arbitrary kinds of target, entry, entry key and lookup key (one arbitrary list cell; `first match` is std's find_map)",
           configs=("fast",)),
+    Claim("c15_append_protocol", "C15", "quick", claim_append,
+          "Value::append / Value::list build the chain they document: starts at the head cell with nothing stored; every element "
+          "goes into the current cell (first) or a fresh cell linked behind it; at the end the given tail becomes the cdr of "
+          "the last cell and the chain is returned, or, with no elements, the tail itself is returned",
+          "any number of elements (loop cut, base case checked), abstract element / tail conversions", configs=("fast",)),
 ]
